@@ -532,7 +532,7 @@ func eqGuard(g guard) (x, y ssa.Value, ok bool) {
 			if fv, isF := t.X.(*ssa.FreeVar); isF && t.Op == token.MUL && mc != nil {
 				for j, f := range fn.FreeVars {
 					if f == fv && j < len(mc.Bindings) {
-						if al, isA := mc.Bindings[j].(*ssa.Alloc); isA {
+						if al, isA := mc.Bindings[j].(*ssa.Alloc); isA && al.Referrers() != nil {
 							var stored ssa.Value
 							n := 0
 							for _, ref := range *al.Referrers() {
@@ -775,7 +775,7 @@ func getterLoad(v ssa.Value) (base ssa.Value, owner, field string, ok bool) {
 			res := rt.Results[idx]
 			// a result spilled because of a deferred unlock: the one value stored into the result cell
 			if u, isU := res.(*ssa.UnOp); isU && u.Op == token.MUL {
-				if al, isA := u.X.(*ssa.Alloc); isA {
+				if al, isA := u.X.(*ssa.Alloc); isA && al.Referrers() != nil {
 					var stored ssa.Value
 					k := 0
 					for _, ref := range *al.Referrers() {
